@@ -91,6 +91,60 @@ def obligations():
 META = {
     'level': 'other',
     'explanation': 'One bounded facet of C08, decided on the real code: lift::collect_captured (MIR of the current tree) is executed on lazily built closure bodies (constructor and name choices are solver decisions) inside a scope that defines x and y; the capture map it fills must contain exactly the free variables of the body that the scope defines. This is the set that becomes the fields of the closure environment struct.',
-    'assumptions': ['everything else in C08 (flow of closure values through tuples / arrays / Vec / returns, apply-function generation, Ref sharing) is outside this claim; seen while probing and not claimed: a closure stored in a Vec is emitted as ill-typed Go (the lifting tracks closure structs per variable, not per type)'],
+    'assumptions': ['O8.2 adds: a struct field read gets the lifted type of the field (a closure stored in a struct field is called through its apply function)', 'everything else in C08 (flow of closure values through tuples / arrays / Vec / returns, apply-function generation, Ref sharing) is outside this claim; seen while probing and not claimed: a closure stored in a Vec is emitted as ill-typed Go (the lifting tracks closure structs per variable, not per type)'],
     'trusted_base': ['mirsym MIR interpreter', 'library models listed per obligation', 'z3', 'reference free-variable function (20 lines)'],
 }
+
+# ----------------------------------------------------------------------------- O8.2 reading a struct field after lifting has the field's lifted type (closure struct), not the source function type
+def ob_field_read_type(r, tier, seed):
+    from mirsym.engine import Cell_
+    W = e2.fresh_world(CRATES); tt = W.tt
+    TY = tt.find_adt(['tast', 'Ty'], 'compiler'); LE = tt.find_adt(['lift', 'LiftExpr'], 'compiler'); ME = [a for a in tt.by_name['MonoExpr'] if a.crate == 'compiler'][0]
+    SD = tt.find_adt(['env', 'StructDef'], 'compiler'); TI = tt.find_adt(['tast', 'TastIdent'], 'compiler')
+    CO = tt.find_adt(['common', 'Constructor'], 'compiler'); SCn = tt.find_adt(['common', 'StructConstructor'], 'compiler')
+    SC = [a for a in tt.by_name['Scope'] if a.crate == 'compiler' and 'lift' in '::'.join(a.path)][0]; SE = [a for a in tt.by_name['ScopeEntry'] if a.crate == 'compiler'][0]
+    kinds = {'closure': lambda: Agg(TY.key, TY.vindex('TStruct'), [mkstr('closure_env_main_0')]), 'int32': lambda: Agg(TY.key, TY.vindex('TInt32'), []), 'tuple': lambda: Agg(TY.key, TY.vindex('TTuple'), [PyVec([Agg(TY.key, TY.vindex('TInt32'), [])])])}
+    r.bounds = 'struct H with one field whose type in the lifted environment is one of %s; the expression `h.f` (mono type: the source type of the field, a function type for the closure case)' % sorted(kinds)
+    r.assumptions = ['oracle: lift::transform_expr gives the field read the type the lifted struct definition records for the field (for a field holding a closure: the closure environment struct, so that a later call goes through its apply function)']
+    ident = lambda n: Agg(TI.key, 0, [mkstr(n)])
+    def shape_of(t): return (TY.variants[t.idx].name, ms.pystr(t.fields[0]) if t.fields and isinstance(t.fields[0], Str) else None)
+    def entry(ex):
+        k = ex.choose([(True, x) for x in sorted(kinds)]); fty = kinds[k]()
+        src_ty = Agg(TY.key, TY.vindex('TFunc'), [PyVec([Agg(TY.key, TY.vindex('TInt32'), [])]), mkbox(Agg(TY.key, TY.vindex('TInt32'), []))]) if k == 'closure' else kinds[k]()
+        genv2 = ex.call('env::GlobalTypeEnv::new_empty', []); monoenv = ex.call('mono::GlobalMonoEnv::from_genv', [genv2]); hm = {0: monoenv}
+        ex.call('mono::GlobalMonoEnv::insert_struct', [Ref(hm, 0), Agg(SD.key, 0, [ident('H'), PyVec([]), PyVec([Agg('tuple', 0, [ident('f'), fty])])])])
+        liftenv = ex.call('lift::GlobalLiftEnv::from_monoenv', [hm[0]])
+        hl = {0: liftenv, 1: Agg('compiler::env::Gensym', 0, [Cell_(0)])}
+        state = ex.call('lift::State::new', [Ref(hl, 0), Ref(hl, 1)])
+        hty = Agg(TY.key, TY.vindex('TStruct'), [mkstr('H')])
+        layer = PyMap('index'); layer.keys.append(mkstr('h')); layer.vals.append(Agg(SE.key, 0, [hty, ms.NONE()]))
+        M = lambda n, **kw: Agg(ME.key, ME.vindex(n), [kw[f[0]] for f in ME.variants[ME.vindex(n)].fields])
+        e = M('EConstrGet', expr=mkbox(M('EVar', name=mkstr('h'), ty=hty)), constructor=Agg(CO.key, CO.vindex('Struct'), [Agg(SCn.key, 0, [ident('H')])]), field_index=0, ty=src_ty)
+        h = {0: state, 1: Agg(SC.key, 0, [PyVec([layer])])}
+        out = ex.call('lift::transform_expr', [Ref(h, 0), Ref(h, 1), e])
+        f = dict(zip([x[0] for x in LE.variants[out.idx].fields], out.fields))
+        return k, LE.variants[out.idx].name, shape_of(f['ty']), shape_of(fty)
+    res = e2.explore(r, W, entry, [])
+    for p in res:
+        r.cases += 1
+        if p.kind != 'ok':
+            if not any(f.key == 'panic' for f in r.findings): r.findings.append(Finding('panic', 'transform_expr panics: %s' % p.value, {}, False, 'not replayed'))
+            continue
+        k, vn, got, want = p.value; r.nontrivial += 1
+        if vn != 'EConstrGet' or got != want:
+            if r.findings: continue
+            import os, subprocess, tempfile, shutil
+            from vlib import build
+            src = 'struct H { run: (int32) -> int32 }\nfn main() -> unit { let k = 2; let h = H { run: |x| x + k }; let f = h.run; string_println(int32_to_string(f(3))) }\n'
+            d = tempfile.mkdtemp(prefix='vf-c08-')
+            try:
+                open(os.path.join(d, 'main.gom'), 'w').write(src)
+                out = subprocess.run([build.compiler_bin(), 'run', '--dump-lift', os.path.join(d, 'main.gom')], capture_output=True, text=True, timeout=60)
+            finally: shutil.rmtree(d, ignore_errors=True)
+            txt = out.stdout; ok_ = 'apply' not in txt.split('fn main')[-1] if 'fn main' in txt else False
+            r.findings.append(Finding('field-read-keeps-source-type', 'reading field f of H (lifted field type %s) is given the type %s' % (want, got), {'kind': k}, ok_, 'goml `%s`: the lifted main %s the closure through its apply function' % (src.replace('\n', ' | '), 'does not call' if ok_ else 'calls')))
+        elif len(r.samples) < 3: r.samples.append({'field': k, 'type': list(got)})
+
+_c08_obl = obligations
+def obligations():
+    return _c08_obl() + [Ob('O8.2-field-read-type', 'a struct field read after lifting has the lifted type of the field', ob_field_read_type, ('quick', 'thorough'), 2, {})]
